@@ -39,9 +39,13 @@ int verif_caught;   /* class of the exception most recently caught */
 #define VERIF_THROW(x) { verif_exc = (x); return VERIF_RET; }
 #define VERIF_THROW_TO(lab, x) { verif_exc = (x); goto lab; }
 #define VERIF_RETHROW { verif_exc = verif_caught; return VERIF_RET; }
-#define VERIF_CALL(e) ({ __auto_type verif_r = (e); if (verif_exc) return VERIF_RET; verif_r; })
+#define VERIF_CAT_(a, b) a##b
+#define VERIF_CAT(a, b) VERIF_CAT_(a, b)
+#define VERIF_CALL_N(e, r) ({ __auto_type r = (e); if (verif_exc) return VERIF_RET; r; })
+#define VERIF_CALL(e) VERIF_CALL_N(e, VERIF_CAT(verif_r, __COUNTER__))
 #define VERIF_CALLV(e) ({ (e); if (verif_exc) return VERIF_RET; (void)0; })
-#define VERIF_CALL_TO(lab, e) ({ __auto_type verif_r = (e); if (verif_exc) goto lab; verif_r; })
+#define VERIF_CALL_TO_N(lab, e, r) ({ __auto_type r = (e); if (verif_exc) goto lab; r; })
+#define VERIF_CALL_TO(lab, e) VERIF_CALL_TO_N(lab, e, VERIF_CAT(verif_r, __COUNTER__))
 #define VERIF_CALLV_TO(lab, e) ({ (e); if (verif_exc) goto lab; (void)0; })
 
 #define VERIF_MAXLEN 100000
